@@ -8,6 +8,18 @@ use serde_json::{json, Value};
 pub const NONE: u8 = 255;
 /// base pattern in which every field holds the same value (every byte 0x5a): arguments equal to each other
 pub const EQUAL: u8 = 9;
+/// base patterns made of characters a normalising helper would touch: lower-case ASCII letters, and blanks / tabs / newlines
+pub const LOWER: u8 = 10;
+pub const BLANK: u8 = 11;
+fn lower_byte(i: u8, j: u8) -> u8 {
+    b'a' + (i.wrapping_mul(7).wrapping_add(j.wrapping_mul(3))) % 26
+}
+fn blank_byte(i: u8, j: u8) -> u8 {
+    [0x20u8, 0x09, 0x0a, 0x0d][((i as usize) + (j as usize)) % 4]
+}
+fn bytes_u64(f: impl Fn(u8) -> u8) -> u64 {
+    (0..8).fold(0u64, |v, j| v | (f(j) as u64) << (8 * j))
+}
 /// override indices that are not argument fields: explicit sizes for the size-sweep programs
 pub const SZ: u8 = 200;
 pub const SX: u8 = 201;
@@ -67,6 +79,8 @@ impl Fill {
             2 => pattern(i, 0),
             3 => pattern(i, 0x80),
             EQUAL => 0x5a5a_5a5a_5a5a_5a5a,
+            LOWER => bytes_u64(|j| lower_byte(i, j)),
+            BLANK => bytes_u64(|j| blank_byte(i, j)),
             b => splitmix(((b as u64) << 8) | i as u64),
         };
         v & mask
@@ -93,6 +107,8 @@ impl Fill {
             2 => i % 2 == 1,
             3 => i % 2 == 0,
             EQUAL => true,
+            LOWER => i % 3 == 0,
+            BLANK => i % 3 == 1,
             b => splitmix(((b as u64) << 8) | i as u64) & 1 == 1,
         }
     }
@@ -107,6 +123,8 @@ impl Fill {
             2 => (i as usize + 1) % n,
             3 => (i as usize + 2) % n,
             EQUAL => 1 % n,
+            LOWER => (i as usize * 5 + 2) % n,
+            BLANK => (i as usize * 3 + 1) % n,
             b => (splitmix(((b as u64) << 8) | i as u64) % n as u64) as usize,
         }
     }
@@ -125,6 +143,8 @@ impl Fill {
                 2 => pat_byte(i, j as u8, 0),
                 3 => pat_byte(i, j as u8, 0x80),
                 EQUAL => 0x5a,
+                LOWER => lower_byte(i, j as u8),
+                BLANK => blank_byte(i, j as u8),
                 b => splitmix(((b as u64) << 16) | ((i as u64) << 8) | j as u64) as u8,
             };
         }
